@@ -48,8 +48,8 @@ fn c02_o3a_validate_immutable_len1() {
 }
 
 //@ ob: C02.O3b
-//@ tier: thorough
-//@ cap: 2700
+//@ tier: off
+//@ cap: 3000
 //@ also: C03
 //@ desc: same for every 10-byte value (two-digit length prefix)
 //@ bounds: v 10 symbolic bytes; unwind 82
@@ -62,8 +62,8 @@ fn c02_o3b_validate_immutable_len10() {
 }
 
 //@ ob: C02.O3c
-//@ tier: thorough
-//@ cap: 2700
+//@ tier: off
+//@ cap: 3000
 //@ also: C03
 //@ desc: same for the empty value
 //@ bounds: v empty; unwind 82
